@@ -37,7 +37,7 @@ def gen_case(rng, tier, i):
     length = rng.choice([10, 20])
     warm = rng.choice([0, 2, 5, length // 2, length, 3, 4])
     prog = gen_program(rng, clock=clock, n_events=rng.randint(6, 40), with_bad=False, horizon=length, warm=warm,
-                       with_cancel=rng.random() < 0.3)
+                       with_cancel=rng.random() < 0.3, start_at=(2 ** 30 if clock != "duration" and i % 5 == 4 else None))
     add_stats(rng, prog, watch=True, density=0.9)
     if rng.random() < 0.3:
         from vlib.proggen import add_oneshot_simlisteners
